@@ -58,6 +58,8 @@ class Engine(object):
         self._abs_nfacts = 0
         self._abs_npc = 0
         self._abs_cache = {}
+        self._abs_memo = {}
+        self._abs_keep = []      # keeps abstracted terms alive so that ids are not reused
 
     def abstract(self, term):
         cache = self._abs_cache
@@ -75,7 +77,7 @@ class Engine(object):
             if k == z3.Z3_OP_POWER:
                 return True
             return False
-        memo = {}
+        memo = self._abs_memo
         R = z3.RealSort()
         I = z3.IntSort()
         ufs = self._abs_cache
@@ -122,6 +124,7 @@ class Engine(object):
             r = t.decl()(*new)
             memo[i] = r
             return r
+        self._abs_keep.append(term)
         return go(term)
 
     def _abs_sync(self):
